@@ -84,8 +84,14 @@ def check(case, rec):
     f, comp = _build(case)
     if not comp.encrypt_by_session_key:
         raise Violation("set_config left a configuration component (tags %r) that is NOT marked for session-key encryption" % ({hex(k): bytes(v).hex() for k, v in comp.description.items()},))
-    content = bytes(comp.blob)
-    declared = comp.actual_len
+    if case["via"] == "direct":
+        # the expectation comes from the CASE, not from the constructed object (a constructor that pads the blob or derives the default
+        # declared length from something else than the given content must not become the expectation)
+        content = bytes(case["content"])
+        declared = case.get("actual_len") or len(content)
+    else:
+        content = bytes(comp.blob)
+        declared = comp.actual_len
     tz = S.trailing_zeros(content)
     if len(content) % 16:
         rec.cls("len%16!=0")
@@ -186,7 +192,7 @@ def check_cipher_failure(case, rec):
     rec.nt()
     key = case["key"]
     f, comp = _build(case)
-    content = bytes(comp.blob)
+    content = bytes(case["content"]) if case["via"] == "direct" else bytes(comp.blob)
     base = sut.bec2format.AES128
     if mode == "unregistered":
         sut.bec2format.register_AES128(base)
